@@ -24,7 +24,7 @@ SHARDS = {'quick': 16, 'thorough': 16}
 REL = {'__lt__': operator.lt, '__le__': operator.le, '__eq__': operator.eq, '__ne__': operator.ne, '__gt__': operator.gt, '__ge__': operator.ge}
 
 
-def make_judges(ctx):
+def make_judges(ctx, conv_max_word=24):
     mon = ctx.mon
     Fxp = mon.Fxp
 
@@ -147,7 +147,7 @@ def make_judges(ctx):
         if ev.kind != 'method' or ev.op not in ('get_val', 'astype', '__float__', '__int__', '__bool__', 'raw', 'uraw', '__call__') or ev.kwargs:
             return
         x = ev.pre[0] if ev.pre else None
-        if x is None or not A.usable(x) or not (1 <= x.n_word <= 24 and -8 <= x.n_frac <= x.n_word + 8):
+        if x is None or not A.usable(x) or not (1 <= x.n_word <= conv_max_word and -8 <= x.n_frac <= x.n_word + 8):
             ctx.skip('conv:operand outside domain')
             return
         lsb = R.lsb(x.n_frac)
@@ -207,7 +207,7 @@ def make_judges(ctx):
 
 def floors(tier):
     return [(op, k) for op in REL for k in ('Fxp', 'number', 'array')] + [('ufunc', n) for n in ('less', 'less_equal', 'equal', 'not_equal', 'greater', 'greater_equal')] + \
-           [('ufunc-left', k) for k in ('float64', 'array', 'Fxp')] + [('conv1', '__float__'), ('conv1', '__int__')] + \
+           [('ufunc-left', k) for k in ('float64', 'array', 'Fxp')] + [('conv1', '__float__'), ('conv1', '__int__'), ('cmp-config',)] + \
            [('conv', w) for w in ('get_val', 'astype(float)', 'astype(int)', '__float__', '__int__', '__bool__', 'raw', 'uraw')]
 
 
@@ -301,6 +301,17 @@ def run_case(case, ctx):
     rels = [operator.lt, operator.le, operator.eq, operator.ne, operator.gt, operator.ge]
     for r in rels:
         _try(lambda: r(x, y))
+    # operands carrying non-default configuration (the relation is about the stored values whatever the array / operation settings are)
+    if (i // 5) % 3 == 0:
+        cfgs = [dict(array_op_method='raw'), dict(array_output_type='array'), dict(op_method='repr', op_sizing='same'), dict(rounding='around', overflow='wrap', shifting='keep')]
+        kwx, kwy = rng.choice(cfgs), rng.choice(cfgs)
+        xc = _try(lambda: Fxp(cx, fx[0], fx[1], fx[2], raw=True, **kwx))
+        yc = _try(lambda: Fxp(cy, fy[0], fy[1], fy[2], raw=True, **kwy))
+        if xc is not None and yc is not None:
+            for r in rels:
+                _try(lambda: r(xc, yc))
+                _try(lambda: r(x, yc))
+            ctx.floor_hit(('cmp-config',))
     num = float(vy) if rng.random() < 0.6 or vy.denominator != 1 else int(vy)
     for r in rels:
         _try(lambda: r(x, num))
